@@ -82,6 +82,9 @@ def gen_history(r, mx, tagged=False):
     else:
       # sub-second clients: 100.5 is a different datapoint than 100 (it grows the cache and needs room like any other)
       ops.append(('store', r.choice(metrics), 100 + r.randrange(0, mx + 3) + (r.choice([0.25, 0.5]) if r.random() < 0.2 else 0)))
+      if r.random() < 0.08:
+        # clients that send milliseconds, or garbage: timestamps far outside any calendar
+        ops[-1] = ('store', ops[-1][1], r.choice([1727864000000, 253402300800, 10 ** 15, 2 ** 63, 0]) + r.randrange(3))
   ndr = r.randint(0, 3)
   return ops, ndr
 
